@@ -35,10 +35,10 @@ func (g G) n(label string, n int) int {
 	return v % n
 }
 
-func (g G) rng(label string, lo, hi int) int { return lo + g.n(label, hi-lo+1) }
-func (g G) chance(label string, pct int) bool { return g.n(label, 100) < pct }
+func (g G) rng(label string, lo, hi int) int      { return lo + g.n(label, hi-lo+1) }
+func (g G) chance(label string, pct int) bool     { return g.n(label, 100) < pct }
 func (g G) pick(label string, xs []string) string { return xs[g.n(label, len(xs))] }
-func (g G) flip(label string) bool                 { return bitGen.Draw(g.t, label) }
+func (g G) flip(label string) bool                { return bitGen.Draw(g.t, label) }
 
 // memBuild bundles an in-memory file tree (keys are paths relative to the virtual root /mem) with a
 // resolver/loader plugin; nothing touches the disk. Specifiers that do not start with "./" or "../" are
@@ -152,4 +152,3 @@ func uniq(xs []string) []string {
 	sort.Strings(out)
 	return out
 }
-
